@@ -132,9 +132,13 @@ pub enum Value<'a> {
 
 impl<'a> Value<'a> {
     /// Clones the value, placing any array backing stores in the given arena.
-    /// Strings use zero-cost clone. Numbers/bools/null are trivial copies.
+    /// Owned strings are copied too: a variable's bytes live in a pool slot that is
+    /// recycled as soon as the variable is overwritten or goes out of scope, so a
+    /// zero-copy alias could outlive them. Borrowed strings (source literals and
+    /// other persistent data) stay zero-cost. Numbers/bools/null are trivial copies.
     fn clone_into(&self, arena: &'a Arena) -> Self {
         match self {
+            Value::Str(ArenaCow::Owned(s)) => Value::Str(ArenaCow::from_str(arena, s)),
             Value::Str(cow) => Value::Str(cow.clone()),
             Value::Number(n) => Value::Number(*n),
             Value::Bool(b) => Value::Bool(*b),
